@@ -835,6 +835,7 @@ def run_shard(shard, tier):
 def post(tot, tier):
     """shards finish in a load-dependent order: make the merged lists order independent"""
     tot["samples"] = sorted(set(tot["samples"]), key=lambda x: (len(x), x))
+    tot["violations"].sort(key=lambda w: (len(w.get("what", "")), w.get("what", ""), w.get("class", "")))
     tot["outcomes"] = dict(sorted(tot["outcomes"].items()))
 
 
